@@ -125,7 +125,9 @@ func (c *connectionRequest) connect(ctx context.Context) (*connectionResult, err
 			}
 			c.player.handleDisconnectWithReason(result.attemptedConn, reason, false)
 		}
-		c.player.resetInFlightConnection()
+		// The in-flight slot of this attempt (if it got one) is released by
+		// internalConnect; never touch the slot of another attempt, e.g. when this
+		// request was only reported as in progress or already connected.
 	}
 	return result, err
 }
